@@ -997,10 +997,21 @@ namespace bloch::runtime {
                 return;  // generic templates handled lazily
             if (!populated.insert(clsNode->name).second)
                 return;
-            if (!clsNode->baseName.empty()) {
-                auto baseIt = declByName.find(clsNode->baseName.back());
-                if (baseIt != declByName.end())
+            // Complete the base first. A generic base is instantiated below from its template, and
+            // that copies the layout of the template's own base: follow template base chains until
+            // a non-generic class is reached and complete that one.
+            std::string baseName = clsNode->baseName.empty() ? "" : clsNode->baseName.back();
+            for (int guard = 0; !baseName.empty() && guard < 1024; ++guard) {
+                auto baseIt = declByName.find(baseName);
+                if (baseIt != declByName.end()) {
                     populate(baseIt->second);
+                    break;
+                }
+                auto tmplIt = m_genericTemplates.find(baseName);
+                if (tmplIt == m_genericTemplates.end() || !tmplIt->second ||
+                    tmplIt->second->baseName.empty())
+                    break;
+                baseName = tmplIt->second->baseName.back();
             }
             RuntimeClass* rc = findClass(clsNode->name);
             if (!rc)
